@@ -51,9 +51,15 @@ def rmFile (o : Obj) (cp : CPath) : Obj := { o with files := AL.erase o.files cp
 
 /-! ### create_object (repo.rs:514-569) -/
 
-def trimWs (s : Str) : Str := (s.dropWhile Char.isWhitespace).reverse.dropWhile Char.isWhitespace |>.reverse
+/-- Unicode `White_Space`, what Rust's `str::trim` removes -/
+def isRustWhitespace (c : Char) : Bool :=
+  let n := c.toNat
+  (9 ≤ n && n ≤ 13) || n == 32 || n == 0x85 || n == 0xA0 || n == 0x1680 || (0x2000 ≤ n && n ≤ 0x200A)
+    || n == 0x2028 || n == 0x2029 || n == 0x202F || n == 0x205F || n == 0x3000
 
-def validContentDir (c : Str) : Bool := !(c == ['.'] || c == ['.', '.'] || c.contains '/')
+def trimWs (s : Str) : Str := (s.dropWhile isRustWhitespace).reverse.dropWhile isRustWhitespace |>.reverse
+
+def validContentDir (c : Str) : Bool := !(c.isEmpty || c == ['.'] || c == ['.', '.'] || c.contains '/')
 
 def specLe : SpecV → SpecV → Bool
   | .v1_1, .v1_0 => false
